@@ -12,7 +12,7 @@ import (
 func init() {
 	register(&Spec{
 		ID:          "C03",
-		Loads:       []LoadSpec{{Patterns: []string{"./lnwallet", "./chanstate", "./lnwire"}}},
+		Loads:       []LoadSpec{{Patterns: []string{"./lnwallet", "./chanstate", "./lnwire", "./channeldb"}}},
 		Explanation: "Extracts the two decision tables of ProcessChanSyncMsg over every order region of the compared heights (TABLE) and compares them with the BOLT-2 retransmission rules; checks that a data-loss verdict needs the recovery options and a verified commit secret, that the retransmitted revocation is for height tail-1 and built by the one revocation generator, that the commitment is retransmitted from the durable commit diff (all log updates, then the signature, re-signed for taproot), that the relative order of revocation and commitment follows the stored LastWasRevoke flag, and that the sender's channel_reestablish fields are the ones the receiver compares.",
 		NotDecided: []string{
 			"that retransmitted signatures verify on the peer", "repeated disconnects during resynchronisation",
@@ -170,6 +170,68 @@ func runC03(r *an.Run) {
 						o.FailAt(f.ID+fmt.Sprintf("#remote-table-P=T%+d-N=T%+d", tip-Tv, n-Tv), f.Where(f.Body.Pos()),
 							"ProcessChanSyncMsg: with remote tail T=%d, tip P=%d, msg.NextLocalCommitHeight=%d the reachable outcomes are %v, BOLT-2 expects %v", Tv, tip, n, got, want)
 					}
+				}
+			}
+		})
+
+	r.Obl("unrevoked-commit-point-table", "TABLE",
+		"final check of ProcessChanSyncMsg: the peer's LocalUnrevokedCommitPoint is compared with RemoteCurrentRevocation exactly when msg.NextLocalCommitHeight = remote tail + 1 and with RemoteNextRevocation exactly when it is remote tail + 2 (and with nothing otherwise); the comparison is skipped only for tweakless channels",
+		"comparing against the wrong stored point declares an honest peer's commit point invalid (ErrInvalidLocalUnrevokedCommitPoint -> force close) on legacy channels when the cut falls between their revocation being persisted and delivered", 6,
+		func(o *an.Obl) {
+			f := p.Func(lw + "LightningChannel.ProcessChanSyncMsg")
+			var cur, next []an.Site
+			for _, v := range f.Graph().V {
+				as, ok := v.Node.(*ast.AssignStmt)
+				if !ok || len(as.Rhs) != 1 {
+					continue
+				}
+				switch c := f.Canon(as.Rhs[0]); {
+				case strings.HasSuffix(c, "channelState.RemoteCurrentRevocation"):
+					cur = append(cur, an.Site{Fn: f, V: v, Node: as})
+				case strings.HasSuffix(c, "channelState.RemoteNextRevocation"):
+					next = append(next, an.Site{Fn: f, V: v, Node: as})
+				}
+			}
+			if len(cur) != 1 || len(next) != 1 {
+				o.FailAt(f.ID+"#commit-point-sites", f.Where(f.Body.Pos()), "expected one selection of RemoteCurrentRevocation and one of RemoteNextRevocation, found %d/%d", len(cur), len(next))
+				return
+			}
+			const Tv = 10
+			for d := int64(0); d <= 3; d++ {
+				n := int64(Tv) + d
+				env := an.IntEnv{Ints: map[string]int64{R: 5, L: 5, N: n, T: Tv, P: n - 1}, Bools: map[string]bool{rst: false, rec: true}}
+				// pass the secret check
+				for _, v := range f.Graph().V {
+					c := f.AtomCanon(v)
+					if strings.Contains(c, "bytes.Equal(") && strings.Contains(c, "LastRemoteCommitSecret") {
+						env.Bools[c] = true
+					}
+				}
+				reach := f.ReachUnder(env.Decide())
+				var got []string
+				if reach[cur[0].V] {
+					got = append(got, "RemoteCurrentRevocation")
+				}
+				if reach[next[0].V] {
+					got = append(got, "RemoteNextRevocation")
+				}
+				want := ""
+				switch d {
+				case 1:
+					want = "RemoteCurrentRevocation"
+				case 2:
+					want = "RemoteNextRevocation"
+				}
+				o.Site("N = T%+d -> compared with %v", d, got)
+				if strings.Join(got, ",") != want {
+					o.FailAt(f.ID+"#commit-point-N=T"+fmt.Sprintf("%+d", d), cur[0].Where(), "with msg.NextLocalCommitHeight = remote tail %+d the commit point is compared with %v, expected [%s]", d, got, want)
+				}
+			}
+			// the error is raised only below !tweakless
+			for name, s := range chanSyncLabels(f) {
+				if strings.HasPrefix(name, "InvalidCommitPoint") {
+					guarded(o, f, s, an.Truth(an.CallNamed("IsTweakless", nil), false, "!ChanType.IsTweakless()"))
+					guarded(o, f, s, an.Truth(an.CallNamed("IsEqual", nil, an.FieldPath(an.Param(1), "LocalUnrevokedCommitPoint")), false, "!commitPoint.IsEqual(msg.LocalUnrevokedCommitPoint)"))
 				}
 			}
 		})
@@ -413,4 +475,5 @@ func runC03(r *an.Run) {
 				o.FailAt(f.ID+"#AtIndex", f.Where(f.Body.Pos()), "the unrevoked commit point must come from RevocationProducer.AtIndex(local height)")
 			}
 		})
+	windowDiscipline(r)
 }
